@@ -117,3 +117,12 @@ mut("urg-swapped-arms", ["C12"], [(SRV, "        if days >= high {\n            
 mut("cnt-sqlite-no-increment", ["C12", "C13", "C02"], [(SQL, "               latest_version_id = ?,\n               versions_since_snapshot = versions_since_snapshot + 1\n", "               latest_version_id = ?\n")], "C02.CNT", "sqlite forgets the counter")
 mut("cnt-mem-no-increment", ["C12", "C13"], [(MEM, "            if let Some(ref mut snap) = client.snapshot {\n                snap.versions_since += 1;\n            }\n", "")], "C02.CNT", "in-memory forgets the counter")
 mut("urg-reread-client", ["C12"], [(SRV, "        // calculate the urgency\n        let time_urgency = match client.snapshot {", "        // calculate the urgency\n        let client = self.storage.txn(client_id)?.get_client()?.ok_or(ServerError::NoSuchClient)?;\n        let time_urgency = match client.snapshot {")], "C12.MAX", "urgency from a re-read client")
+
+# ---- C05
+mut("err-commit-ignored-snapshot", ["C05", "C04"], [(SRV, "            data,\n        )?;\n        txn.commit()?;\n        Ok(())", "            data,\n        )?;\n        let _ = txn.commit();\n        Ok(())")], "S-TXN3", "commit error ignored")
+mut("err-set-snapshot-ok", ["C05"], [(SRV, "            data,\n        )?;\n        txn.commit()?;\n        Ok(())", "            data,\n        )\n        .ok();\n        txn.commit()?;\n        Ok(())")], "C05.ERR", ".ok() on set_snapshot")
+mut("err-sqlite-commit-swallowed", ["C05", "C04"], [(SQL, "        self.con.execute(\"COMMIT\", [])?;\n        Ok(())", "        if let Err(e) = self.con.execute(\"COMMIT\", []) {\n            let _ = e;\n        }\n        Ok(())")], "C05.ERR", "COMMIT failure swallowed in the backend")
+mut("err-other-to-400", ["C05", "C14"], [(API, "ServerError::Other(err) => error::ErrorInternalServerError(err),", "ServerError::Other(err) => error::ErrorBadRequest(err),")], "C05.MAP", "storage failure reported as 400")
+mut("err-ack-before-commit", ["C05", "C04", "C02"], [(SRV, "        txn.add_version(version_id, parent_version_id, history_segment)?;\n        txn.commit()?;\n\n        // calculate the urgency", "        txn.add_version(version_id, parent_version_id, history_segment)?;\n        if txn.commit().is_err() {\n            log::warn!(\"commit failed\");\n        }\n\n        // calculate the urgency")], "S-TXN3", "success acknowledged although commit failed")
+mut("err-insert-ignored", ["C05"], [(SQL, "        .context(\"Error adding version\")?;\n        self.con", "        .context(\"Error adding version\").ok();\n        self.con")], "C05.ERR", "INSERT failure ignored, latest still moved")
+mut("err-forget-txn", ["C05"], [(SRV, "            return Ok((\n                AddVersionResult::ExpectedParentVersion(client.latest_version_id),", "            std::mem::forget(txn);\n            return Ok((\n                AddVersionResult::ExpectedParentVersion(client.latest_version_id),")], "C05.DROP", "transaction (and its lock) leaked on the conflict path")
